@@ -339,7 +339,13 @@ Atom(key) == <<key.k, key.x>>
 KeyLists(sel) ==
     LET K == KeyItems(sel)
         K1 == {<<k>> : k \in K}
-        K2 == {<<k1, k2>> : k1 \in K, k2 \in {k \in K : TRUE}}
+        \* second keys: every item when Rich; otherwise the first and third column in both directions (c1 is unique in a
+        \* plain source, so the order becomes total), one ordinal and one expression
+        S2 == IF Rich THEN K
+              ELSE {k \in K : \/ k.k = "e" /\ k.x \in {"c1", "c3"}
+                              \/ k.k = "ord" /\ k.x = "1" /\ k.d = "ASC"
+                              \/ k.k = "e" /\ k.x = "c2+c3" /\ k.d = "DESC"}
+        K2 == {<<k1, k2>> : k1 \in K, k2 \in S2}
         ok2 == {s \in K2 : Atom(s[1]) # Atom(s[2])}
         \* a third key: the first column in either direction (the unique id of a plain source: the order becomes total)
         K3 == {<<s[1], s[2], k3>> : s \in ok2, k3 \in {k \in K : k.k = "e" /\ k.x = "c1"}}
